@@ -72,6 +72,7 @@ type PCase struct {
 	SiteSeed  uint64             `json:"site_seed,omitempty"`
 	Budget    uint32             `json:"budget,omitempty"`
 	Race      bool               `json:"race,omitempty"`
+	Cold      bool               `json:"cold,omitempty"`
 }
 
 type PJob struct {
@@ -85,6 +86,8 @@ type PJob struct {
 	KeepLog  bool     `json:"keep_log"`
 	MaxViol  int      `json:"max_viol"`
 	RefSigs  bool     `json:"ref_sigs"`
+	RefOnly  bool     `json:"ref_only"`
+	Skip     []int    `json:"skip,omitempty"`
 	Plain    bool     `json:"-"` // run on the unwoven runner
 	Env      []string `json:"-"` // extra environment of the worker process
 }
@@ -217,14 +220,21 @@ func zzNew[U Uint](cfg zzrt.InstCfg, buffer string) zzrt.Instance {
 	var opts []func(*{{.Struct}}[U]) error
 	if cfg.ShareOpts {
 		key := fmt.Sprintf("%T|%d|%v|%v", *new(U), cfg.Size, cfg.NoMemo, cfg.Pretty)
+		// never call into the (woven) parser package while holding the real
+		// mutex: a task parked inside would block the others undetectably
 		zzOptMu.Lock()
-		if v, ok := zzOptCache[key]; ok {
-			opts = v.([]func(*{{.Struct}}[U]) error)
-		} else {
-			opts = build()
-			zzOptCache[key] = opts
-		}
+		v, ok := zzOptCache[key]
 		zzOptMu.Unlock()
+		if !ok {
+			built := build()
+			zzOptMu.Lock()
+			if v, ok = zzOptCache[key]; !ok {
+				zzOptCache[key] = built
+				v = built
+			}
+			zzOptMu.Unlock()
+		}
+		opts = v.([]func(*{{.Struct}}[U]) error)
 	} else {
 		opts = build()
 	}
@@ -368,6 +378,10 @@ var reFailPkg = regexp.MustCompile(`(?m)^# github\.com/pointlander/peg/zzsim/w/(
 // buildParsim prepares scratch copies, emits and weaves the workload and
 // builds the runner(s).
 func buildParsim(e *Env, sc *Scratch, specs []GrammarSpec, wantRace bool, wantWoven bool) (*parsimRig, error) {
+	return buildParsimOpt(e, sc, specs, wantRace, wantWoven, false)
+}
+
+func buildParsimOpt(e *Env, sc *Scratch, specs []GrammarSpec, wantRace bool, wantWoven bool, stmtYields bool) (*parsimRig, error) {
 	rig := &parsimRig{env: e, sc: sc, repo: sc.Path("repo"), wrepo: sc.Path("wrepo"), peg: sc.Path("peg"),
 		runner: sc.Path("parsim.test"), raceRunner: sc.Path("parsim-race.test"), workload: sc.Path("workload.json"), rejected: map[string]int{}}
 	if err := CopyTree(e.RepoDir, rig.repo); err != nil {
@@ -457,7 +471,7 @@ func buildParsim(e *Env, sc *Scratch, specs []GrammarSpec, wantRace bool, wantWo
 		for _, gi := range rig.infos {
 			dir := filepath.Join(rig.wrepo, "zzsim", "w", gi.Name)
 			if err := rig.weaver.WeaveFiles(dir, "zzsim/w/"+gi.Name, []string{gi.Name + ".peg.go"},
-				weave.Options{Yields: true, MemoFaults: true, SyncTypes: true, MapRanges: !gi.Heavy}); err != nil {
+				weave.Options{Yields: true, StmtYields: stmtYields && !gi.Heavy, MemoFaults: true, SyncTypes: true, MapRanges: !gi.Heavy}); err != nil {
 				return nil, infra("weave %s: %v", gi.Name, err)
 			}
 		}
@@ -637,16 +651,38 @@ func (a *parsimAgg) add(r *PJobResult) {
 	}
 }
 
+func (a *parsimAgg) merge(b *parsimAgg) {
+	a.Runs += b.Runs
+	a.Nontrivial += b.Nontrivial
+	for k, v := range b.Skipped {
+		a.Skipped[k] += v
+	}
+	for k, v := range b.Stats {
+		a.Stats[k] += v
+	}
+	for k := range b.Sigs {
+		a.Sigs[k] = true
+	}
+	for k := range b.Adjacent {
+		a.Adjacent[k] = true
+	}
+	a.Viol = append(a.Viol, b.Viol...)
+}
+
 // sweep runs cases [0,total) of a mode across worker processes.
 func (rig *parsimRig) sweep(mode string, seed uint64, total int, race bool, chunk int, timeout time.Duration) (*parsimAgg, error) {
+	return rig.sweepRange(mode, seed, 0, total, race, chunk, timeout)
+}
+
+func (rig *parsimRig) sweepRange(mode string, seed uint64, lo, total int, race bool, chunk int, timeout time.Duration) (*parsimAgg, error) {
 	agg := newAgg()
 	var mu sync.Mutex
 	if chunk < 1 {
 		chunk = 1
 	}
-	nchunks := (total + chunk - 1) / chunk
+	nchunks := (total - lo + chunk - 1) / chunk
 	err := ParallelDo(nchunks, rig.env.Jobs, func(i int) error {
-		from, to := i*chunk, min(total, (i+1)*chunk)
+		from, to := lo+i*chunk, min(total, lo+(i+1)*chunk)
 		res, err := rig.runJob(&PJob{Mode: mode, Seed: seed, From: from, To: to, Race: race, MaxViol: 3}, race, timeout)
 		if err != nil {
 			if wc, ok := err.(workerCrash); ok {
@@ -656,7 +692,11 @@ func (rig *parsimRig) sweep(mode string, seed uint64, total int, race bool, chun
 					return ierr
 				}
 				mu.Lock()
-				agg.Viol = append(agg.Viol, *v)
+				if v != nil {
+					agg.Viol = append(agg.Viol, *v)
+				} else {
+					agg.Skipped["the reference itself kills the runner (resource limit)"]++
+				}
 				mu.Unlock()
 				return nil
 			}
@@ -681,6 +721,17 @@ func (rig *parsimRig) isolateCrash(mode string, seed uint64, from, to int, race 
 			continue
 		}
 		if w2, ok := err.(workerCrash); ok {
+			// If computing the reference observations of this case alone
+			// already kills the runner (memory watchdog on a huge
+			// un-memoised parse, …) the case has no reference: inconclusive,
+			// not a violation.
+			if !race {
+				if _, rerr := rig.runJob(&PJob{Mode: mode, Seed: seed, From: i, To: i + 1, RefSigs: true, RefOnly: true}, false, timeout); rerr != nil {
+					if _, isCrash := rerr.(workerCrash); isCrash {
+						return nil, nil
+					}
+				}
+			}
 			return &PViolation{Case: PCase{Mode: mode, Run: i, Race: race}, Outcome: POutcome{Class: "crash", Detail: "the runner process died on this case:\n" + clipStr(w2.msg, 2500)}}, nil
 		}
 		return nil, err
@@ -840,6 +891,33 @@ func (e *Env) shippedSpecs(r *simrt.SplitMix64, thorough bool) []GrammarSpec {
 	return out
 }
 
+// longInputs builds a few inputs of several thousand runes by repeating pool
+// members (offsets beyond 255 and 4 096, many memo entries, token buffers far
+// beyond every Size knob); the step budget skips the ones a grammar cannot
+// handle without memoisation.
+func longInputs(r *simrt.SplitMix64, pool []string) []string {
+	var out []string
+	for _, target := range []int{300, 2500, 9000} {
+		if len(pool) == 0 {
+			break
+		}
+		base := pool[r.Intn(len(pool))]
+		for tries := 0; len([]rune(base)) == 0 && tries < 8; tries++ {
+			base = pool[r.Intn(len(pool))]
+		}
+		n := len([]rune(base))
+		if n == 0 {
+			continue
+		}
+		s := strings.Repeat(base, target/n+1)
+		if r.Chance(1, 2) {
+			s += pool[r.Intn(len(pool))]
+		}
+		out = append(out, s)
+	}
+	return out
+}
+
 // parsimSpecs assembles the workload of a tier.
 func (e *Env) parsimSpecs(nGenerated, inputsPer int, optsPerGenerated int, shipped bool) ([]GrammarSpec, error) {
 	specs, err := e.loadCorpus()
@@ -849,6 +927,7 @@ func (e *Env) parsimSpecs(nGenerated, inputsPer int, optsPerGenerated int, shipp
 	r := simrt.NewRNG(simrt.Derive(e.Seed, "workload"))
 	for i := range specs {
 		specs[i].Inputs = mutateInputs(r, specs[i].Inputs, inputsPer, 40)
+		specs[i].Inputs = append(specs[i].Inputs, longInputs(r, specs[i].Inputs)...)
 	}
 	for i := 0; i < nGenerated; i++ {
 		base := fmt.Sprintf("g%d", i)
@@ -863,8 +942,10 @@ func (e *Env) parsimSpecs(nGenerated, inputsPer int, optsPerGenerated int, shipp
 				}
 			}
 		}
+		in := g.Inputs(simrt.DeriveN(e.Seed, "inputs", i), inputsPer, 32)
+		in = append(in, longInputs(r, in)...)
 		specs = append(specs, GrammarSpec{Base: base, Kind: "generated", Text: g.Text(), OptSets: sets,
-			Inputs: g.Inputs(simrt.DeriveN(e.Seed, "inputs", i), inputsPer, 32), HasHost: true, Salt: g.Salt})
+			Inputs: in, HasHost: true, Salt: g.Salt})
 	}
 	if shipped {
 		specs = append(specs, e.shippedSpecs(r, e.Tier == "thorough")...)
